@@ -76,11 +76,14 @@ PROPS = {
     ),
     "C04": dict(
         engine="TestC04",
-        lean_modules=["S2S.Props.C04"],
-        required_theorems=["C04_refuted_target_break", "C04_refuted_source_restart", "C04_refuted", "C04_partial_fault_free", "C04_modulo_known_findings"],
+        lean_modules=["S2S.Props.C04", "S2S.Props.C04T"],
+        required_theorems=["C04_refuted_target_break", "C04_refuted_source_restart", "C04_refuted", "C04_partial_fault_free", "C04_modulo_known_findings",
+                           "C04T_modulo_known_findings_tight", "C04T_tight_implies_loose", "C04T_env_iff"],
         rule=ROUTING_RULE + " Focus C04: 1-4 faults per trace (target-stream break, source-stream break, reconnect immediately or late) at random op "
              "boundaries, with gated targets so that queued and in-hand messages die with the stream; monitor: C01's statement with confirmation by any "
-             "incarnation; violations are attributed to a known finding only by the structural rule recorded in known_findings.json.",
+             "incarnation; violations are attributed to a known finding only by the structural rule recorded in known_findings.json, which is `ExcusedT` of "
+             "Spec/RoutingFaultsTight.lean: (a) the task was lost with a broken target stream AND a later stream of that target has taken something of the same "
+             "source above it; (b) the task was also received by an earlier incarnation of the source stream.",
         assumptions=ROUTING_ASSUMPTIONS + ["after a source-stream restart the source resumes from the last acknowledgement it received"],
         timeout={"quick": 1200, "thorough": 7200},
     ),
